@@ -8,11 +8,12 @@
                                                                   WTCount receives; FlushCommandsToWAL
       executor/wal.go:263-340          FlushCommandsToWAL         WAL write + fsync (+ ReplicationSender.Send), THEN primary writes
       executor/wal.go:712-785          haveWALWriter, SyncWAL     the background loop: select { ticker | token | checkpoint }, shutdown branch
-      executor/wal.go:787-801          RequestFlush               read haveWALWriter; read len(flushChannel); return | send token, wait
+      executor/wal.go:787-797          RequestFlush               read haveWALWriter; send token, wait   (the early return on a queued
+                                                                  token was removed by the fix of F10, see known_findings.txt)
       executor/cache.go:15,27-34       channel capacities (WriteChannelCommandDepth, generated: Src_sched)
 
     One labelled step per point at which Go may interleave goroutines: every channel send/receive,
-    every read/write of a shared variable (haveWALWriter, len(flushChannel), *shutdownPending), the
+    every read/write of a shared variable (haveWALWriter, *shutdownPending), the
     WAL fsync and the primary write.  The state is first-order and [step] is executable, so a schedule
     is a [list label] and [run_labels] decides whether the model can perform it.
 
@@ -34,14 +35,13 @@ Inductive fl :=
 | FWal (acc : list cmd)               (* TG serialised; about to write it to the WAL and fsync     l.291-315 *)
 | FPrim (acc : list cmd).             (* WAL synced (replication Send done); primary writes next   l.326-339 *)
 
-Inductive rkind := RAcked | REarly | RInline.
+Inductive rkind := RAcked | RInline.
 
 (** program counter of a writer goroutine inside WriteCSM *)
 Inductive wpc :=
 | WEnq (d : nat)      (* d commands queued so far; when d = k: about to read haveWALWriter (wal.go:788) *)
-| WLen                (* haveWALWriter was true; about to read len(flushChannel)             (wal.go:795) *)
-| WSend               (* about to send its own token f                                        (wal.go:799) *)
-| WWait               (* token sent; blocked in <-f                                           (wal.go:800) *)
+| WSend               (* haveWALWriter was true; about to send its own token f                (wal.go:795) *)
+| WWait               (* token sent; blocked in <-f                                           (wal.go:796) *)
 | WInl (f : fl)       (* haveWALWriter was false: FlushToWAL in the writer's own goroutine    (wal.go:789) *)
 | WRet (r : rkind).   (* WriteCSM returned nil *)
 
@@ -77,7 +77,6 @@ Definition init (ks0 : list nat) (cw cf : N) : st :=
 Inductive label :=
 | Enq (w : nat)                 (* writeChannel <- wc *)
 | RdHave (w : nat) (b : bool)   (* the read of haveWALWriter returned b *)
-| RdLen (w : nat) (pos : bool)  (* len(flushChannel) > 0 evaluated to pos; pos = true: RequestFlush returns *)
 | SendTok (w : nat)             (* flushChannel <- f *)
 | InlFl (w : nat)               (* one step of FlushToWAL in writer w's goroutine *)
 | LStart                        (* haveWALWriter = true *)
@@ -150,14 +149,7 @@ Definition step (l : label) (s : st) : option st :=
       match nth_error (ws s) w with
       | Some (WEnq d) =>
           if (d =? nth w (ks s) 0) && Bool.eqb b (have s)
-          then Some (set_w s w (if b then WLen else WInl FCount)) else None
-      | _ => None
-      end
-  | RdLen w pos =>
-      match nth_error (ws s) w with
-      | Some WLen =>
-          if Bool.eqb pos (0 <? length (fch s))
-          then Some (set_w s w (if pos then WRet REarly else WSend)) else None
+          then Some (set_w s w (if b then WSend else WInl FCount)) else None
       | _ => None
       end
   | SendTok w =>
@@ -235,6 +227,3 @@ Definition flushed (s : st) (w : nat) : bool := all_in s w (synced s) && all_in 
 (** steady: no writer ever read haveWALWriter = false, i.e. FlushToWAL runs only in the loop goroutine *)
 Definition steady (l : label) : bool :=
   match l with RdHave _ false => false | InlFl _ => false | _ => true end.
-(** flush-token-queued (F10): some writer found a token queued and returned without waiting *)
-Definition early (l : label) : bool := match l with RdLen _ true => true | _ => false end.
-Definition no_early (l : label) : bool := negb (early l).
